@@ -57,6 +57,26 @@ func (a Alpha) spec(i int) qmodel.EnvSpec {
 		Payload: []byte("p-" + a.IDs[i]), Headers: map[string]string{"X-Id": a.IDs[i]}}
 }
 
+// Prefix is a named fixed history that leads to a non-initial start state.
+type Prefix struct {
+	Name string
+	Ops  []qmodel.Op
+}
+
+// RichPrefixes: populations that a bounded search from the empty queue reaches only near its horizon - parked (dead,
+// canceled) and settled messages next to live ones, a delayed message, an expired but not yet swept lease. Every
+// prefix is validated against the model before the search starts from its end state.
+func RichPrefixes(a Alpha) []Prefix {
+	e := func(i int) qmodel.Op { return qmodel.Op{Kind: "enq", Envs: []qmodel.EnvSpec{a.spec(i)}} }
+	deq := func(b int) qmodel.Op { return qmodel.Op{Kind: "deq", Batch: b, TTL: 2 * Sec} }
+	h := func(i int) string { return a.IDs[i] + "#1" }
+	return []Prefix{
+		{"a-dead,b-settled,c-queued", []qmodel.Op{e(0), e(1), deq(2), {Kind: "dead", Lease: h(0), Reason: "boom"}, {Kind: "ack", Lease: h(1)}, e(2)}},
+		{"a-canceled,b-delayed,c-queued", []qmodel.Op{e(0), e(1), e(2), deq(2), {Kind: "nack", Lease: h(1), Delay: 5 * Sec}, {Kind: "cancel", IDs: []string{a.IDs[0]}}}},
+		{"a-lease-expired,b-dead,c-leased", []qmodel.Op{e(0), e(1), deq(2), {Kind: "dead", Lease: h(1), Reason: "boom"}, {Kind: "tick", Dur: 2 * Sec}, e(2), {Kind: "deq", Route: a.Routes[2%len(a.Routes)], Batch: 1, TTL: 2 * Sec}}},
+	}
+}
+
 // Ops lists the alphabet in a state, simplest first.
 func (a Alpha) Ops(m *qmodel.Model, handles []string) []qmodel.Op {
 	var ops []qmodel.Op
@@ -179,6 +199,11 @@ type Spec struct {
 	Workers  int
 	// RootShard/RootShards split the search below the initial state over processes (see bfs.Engine).
 	RootShard, RootShards int
+	// Prefix: a fixed history applied (and validated against the model) before the search starts, so that the search
+	// begins in a non-initial state ("rich" populations a bounded depth cannot reach from the empty queue). Lease
+	// handles the prefix obtained are known to the alphabet. PrefixName labels the run.
+	Prefix     []qmodel.Op
+	PrefixName string
 	// ScaleCompaction (memory backend): lower the order-list compaction thresholds (1024 entries, factor 4) to 2 and 1
 	// so that compactions happen inside the explored histories; the reference model is unchanged (a compaction must
 	// be unobservable).
@@ -268,6 +293,19 @@ func Run(spec Spec) *Result {
 	var stepN int64
 	s0 := get(0)
 	s0.Reset()
+	base := init
+	if len(spec.Prefix) > 0 {
+		init = base.Clone()
+		init.Edges = edges
+		for i, h := range spec.Prefix {
+			obs := s0.Do(h)
+			if why := init.Apply(h, obs, s0.Snapshot()); why != "" {
+				br := &bfs.Result[qmodel.Op]{Exhaustive: true, Outcomes: map[string]int64{}}
+				br.Violations = append(br.Violations, bfs.Violation[qmodel.Op]{Hist: append([]qmodel.Op{}, spec.Prefix[:i]...), Op: h, Message: "(in the prefix history) " + why})
+				return &Result{Result: br, Edges: edges, Backend: spec.Backend, ConfigLabel: ConfigLabel(spec.Cfg)}
+			}
+		}
+	}
 	initKey := s0.Key()
 
 	eng := &bfs.Engine[*qmodel.Model, qmodel.Op]{
@@ -286,9 +324,9 @@ func Run(spec Spec) *Result {
 				// The memory backend breaks DLQ-depth ties by map iteration order, so the same history may take another
 				// (equally legal) branch when replayed: re-derive the model along the replay instead of trusting the
 				// snapshot taken when the history was first explored.
-				m = init.Clone()
+				m = base.Clone()
 				m.Edges = local
-				for i, h := range hist {
+				for i, h := range append(append([]qmodel.Op{}, spec.Prefix...), hist...) {
 					obs := sys.Do(h)
 					if why := m.Apply(h, obs, sys.Snapshot()); why != "" {
 						return bfs.StepResult[*qmodel.Model]{Violation: fmt.Sprintf("(while replaying step %d %s) %s", i, h, why), Label: obs.Err}
@@ -296,6 +334,9 @@ func Run(spec Spec) *Result {
 				}
 				st = m.Clone()
 			} else {
+				if len(spec.Prefix) > 0 {
+					sys.Replay(spec.Prefix)
+				}
 				sys.Replay(hist)
 				m = st.Clone()
 				m.Edges = local
@@ -331,6 +372,7 @@ func Run(spec Spec) *Result {
 				// self-check of the fast reset: re-derive this state on a freshly opened database
 				sys.ForceReopen()
 				sys.Reset()
+				sys.Replay(spec.Prefix)
 				sys.Replay(hist)
 				sys.Do(op)
 				if k2 := sys.Key(); k2 != key {
@@ -372,6 +414,10 @@ func handlesOf(m *qmodel.Model) []string {
 // Replay re-executes one history + operation on a fresh instance and returns the oracle verdict (used to
 // re-check violations and by --replay).
 func Replay(spec Spec, hist []qmodel.Op, op qmodel.Op) string {
+	if spec.ScaleCompaction && spec.Backend == "memory" {
+		queue.VerifSetCompaction(2, 1)
+		defer queue.VerifSetCompaction(1024, 4)
+	}
 	cfg := spec.Cfg
 	if spec.Backend == "sqlite" && cfg.SweepGranularity == 0 {
 		cfg.SweepGranularity = 10 * time.Millisecond
@@ -411,6 +457,9 @@ func Report(r *runner.Run, spec Spec, res *Result) {
 			label += "/compaction-scale-not-applicable"
 		}
 	}
+	if spec.PrefixName != "" {
+		label += "/from:" + spec.PrefixName
+	}
 	if spec.RootShards > 1 {
 		label += fmt.Sprintf("/shard%d-of-%d", spec.RootShard, spec.RootShards)
 	}
@@ -446,13 +495,17 @@ func Report(r *runner.Run, spec Spec, res *Result) {
 		if key == "" {
 			key = fmt.Sprintf("%s:%s:%s", spec.Backend, v.Op.Kind, firstWords(v.Message, 6))
 		}
-		hist := make([]string, len(v.Hist))
-		for i, h := range v.Hist {
+		full := v.Hist
+		if len(spec.Prefix) > 0 && !strings.HasPrefix(v.Message, "(in the prefix history)") {
+			full = append(append([]qmodel.Op{}, spec.Prefix...), v.Hist...)
+		}
+		hist := make([]string, len(full))
+		for i, h := range full {
 			hist[i] = h.String()
 		}
 		r.Violation(key, fmt.Sprintf("[%s] after %v, operation %s: %s", label, hist, v.Op, v.Message),
-			map[string]any{"engine": "bfs", "harness": spec.Name, "backend": spec.Backend, "config": spec.Cfg, "scaled": spec.ScaleCompaction, "history": v.Hist, "op": v.Op, "history_text": hist, "op_text": v.Op.String()},
-			func() bool { return Replay(spec, v.Hist, v.Op) != "" })
+			map[string]any{"engine": "bfs", "harness": spec.Name, "backend": spec.Backend, "config": spec.Cfg, "scaled": spec.ScaleCompaction, "history": full, "op": v.Op, "history_text": hist, "op_text": v.Op.String()},
+			func() bool { return Replay(spec, full, v.Op) != "" })
 	}
 }
 
@@ -514,9 +567,7 @@ func HandleReplay(r *runner.Run, specs []Spec, locks []LockSpec) bool {
 		for _, s := range specs {
 			if s.Name == rp.Harness {
 				s.Backend, s.Cfg = rp.Backend, rp.Config
-				if rp.Scaled && s.Backend == "memory" {
-					queue.VerifSetCompaction(2, 1)
-				}
+				s.ScaleCompaction = rp.Scaled
 				verdict(Replay(s, rp.History, rp.Op))
 				return true
 			}
